@@ -36,7 +36,8 @@ def float_to_fr(tok):
 
 
 # ------------------------------------------------------------------------------------------ instances
-# instance: dict(id, kind 'I'|'S', vs=[(des,wt,scl)], cs=[(l,r,gap,eq)], ops=[('S',)|('F',)|('A',l,r,gap,eq)|('D',i,d)], tag)
+# instance: dict(id, kind 'I'|'S', vs=[(des,wt,scl)], cs=[(l,r,gap,eq)], ops=[('S',)|('F',)|('A',l,r,gap,eq)|('D',i,d)|('W',i,w)], tag)
+# ('W', i, w): the caller assigns Variable::weight of variable i (w > 0) between solves (the pin / lock idiom)
 def inst_cpp_text(ins):
     out = ['N %d %d %d %d %s' % (ins['id'], len(ins['vs']), len(ins['cs']), len(ins['ops']), ins['kind'])]
     for d, w, s in ins['vs']:
@@ -49,7 +50,7 @@ def inst_cpp_text(ins):
         elif o[0] == 'A':
             out.append('o A %d %d %s %d' % (o[1], o[2], fr_dec(o[3]), 1 if o[4] else 0))
         else:
-            out.append('o D %d %s' % (o[1], fr_dec(o[2])))
+            out.append('o %s %d %s' % (o[0], o[1], fr_dec(o[2])))
     return '\n'.join(out) + '\n'
 
 
@@ -65,10 +66,12 @@ def inst_drv_text(ins, reals):
         elif o[0] == 'A':
             out.append('o A %d %d %s %d' % (o[1], o[2], fr_hex(o[3]), 1 if o[4] else 0))
         else:
-            out.append('o D %d %s' % (o[1], fr_hex(o[2])))
+            out.append('o %s %d %s' % (o[0], o[1], fr_hex(o[2])))
     for r in reals:
         if r['status'] == 'ok' and r['finite']:
             out.append('r %d ok %s %s %s' % (r['op'], ' '.join(fr_hex(x) for x in r['x']), r['A'], r['U']))
+        elif r['status'] != 'ok' and ins.get('kind') == 'S':
+            out.append('q %d' % r['op'])      # the static Solver threw: ask the verified detector whether the system is feasible
     out.append('E')
     return '\n'.join(out) + '\n'
 
@@ -82,6 +85,8 @@ def cons_at(ins, k):
             cs.append((o[1], o[2], o[3], o[4]))
         elif o[0] == 'D':
             vs[o[1]][0] = o[2]
+        elif o[0] == 'W':
+            vs[o[1]][1] = o[2]
     return vs, cs
 
 
@@ -101,7 +106,8 @@ def parse_cpp(txt):
             res[cur].append({'op': k, 'status': status, 'x': xs, 'xf': [float.fromhex(x) for x in t[ip + 1:ib]],
                              'B': [int(b) for b in t[ib + 1:ia]], 'A': t[ia + 1], 'U': t[iu + 1],
                              'finite': t[ifin + 1] == '1' and all(x is not None for x in xs),
-                             'wf': (t[t.index('W') + 1] == '1') if 'W' in t else True})
+                             'wf': (t[t.index('W') + 1] == '1') if 'W' in t else True,
+                             'thrown': int(t[t.index('T') + 1]) if 'T' in t else None})
     return res
 
 
@@ -257,6 +263,23 @@ def eval_c01(ins, reals, drv, impl):
         base = {'impl': impl, 'instance': ins_json(ins), 'op_index': k, 'replay_input': replay_text(ins),
                 'how_to_replay': 'write replay_input to a file and run build/bin/c01_vpsc%s-exc-* <file>' % ('_avoid' if impl == 'avoid' else '')}
         if r['status'] != 'ok':
+            if ins['kind'] == 'S' and r['status'] == 'throw_unsatisfied':
+                # the static Solver has no per-constraint flag: throwing UnsatisfiedConstraint from its closing scan IS
+                # its report "this constraint could not be satisfied".  Legitimate iff the system is infeasible.
+                det = d['d'].get(k)
+                if det == 'C':
+                    break                      # infeasible (verified positive cycle) and reported: what C01 asks for
+                base.update({'status': r['status'], 'thrown_constraint': r.get('thrown'), 'positions_at_throw': r['xf'],
+                             'what': 'static Solver reported a constraint unsatisfied (threw UnsatisfiedConstraint) although the inequality-only '
+                                     'system is feasible (verified potentials)' if det == 'P' else
+                                     'static Solver threw UnsatisfiedConstraint and the verified detector gave no verdict (%s)' % det})
+                if det == 'P':
+                    cls = classify_static_feasible_cycle(ins, r)
+                    if cls:
+                        base['fingerprint'] = 'static_solver_throws_on_feasible_cycle'
+                        base['classifier_detail'] = cls
+                out.append(base)
+                break
             base.update({'what': 'solver threw on a valid instance', 'status': r['status']})
             out.append(base)
             break
@@ -374,6 +397,7 @@ DES = [Fr(x) for x in range(-4, 9)] + [Fr(1, 2), Fr(5, 2), Fr(-3, 2), Fr(7, 4)]
 WTS = [Fr(1)] * 5 + [Fr(2), Fr(3), Fr(1, 2), Fr(5), Fr(10)]
 SCLS = [Fr(1), Fr(1), Fr(2), Fr(1, 2), Fr(4), Fr(3)]
 GAPS = [Fr(x) for x in (-2, -1, 0, 0, 1, 1, 2, 3, 4)] + [Fr(1, 2), Fr(3, 2)]
+PINW = [Fr(1000), Fr(1000), Fr(100000), Fr(1), Fr(1), Fr(2), Fr(1, 2), Fr(10), Fr(1, 100)]     # pin (fixPos / lock), unpin, re-weight
 
 
 def gen_vars(rng, n, scaled, intlike):
@@ -400,11 +424,16 @@ def gen_con(rng, n, order, mode, eqp):
     return (l, r, g, e)
 
 
-def gen_instance(rng, iid, nmax, kind='I', hist=True):
+def gen_instance(rng, iid, nmax, kind='I', hist=True, weights=False):
+    """weights=True: op histories may also change Variable::weight between solves (ops ('W', i, w))"""
     n = rng.range(2, nmax)
     family = rng.choice(['dag', 'dag', 'rand', 'cycle', 'dup', 'chain', 'rand'])
     if kind == 'S':
         family = rng.choice(['dag', 'chain', 'dup'])
+    elif kind == 'SC':
+        # the static Solver on arbitrary multigraphs (C01 quantifies over cycles too): cycles of total gap -1/0/+1, random digraphs
+        family = rng.choice(['cycle', 'cycle', 'rand', 'dag'])
+        kind = 'S'
     scaled = rng.chance(1, 4)
     intlike = rng.chance(1, 2)
     eqp = 25 if (rng.chance(1, 3) and kind == 'I') else 0
@@ -449,7 +478,10 @@ def gen_instance(rng, iid, nmax, kind='I', hist=True):
         ops = [('S',)] if rng.chance(3, 4) else [('F',)]
         return {'id': iid, 'kind': 'S', 'vs': vs, 'cs': cs, 'ops': ops, 'tag': 'static-' + family}
     ops = [('S',) if rng.chance(3, 4) else ('F',)]
-    if hist and rng.chance(1, 2):
+    if weights and rng.chance(1, 4):
+        # weight changed after the solver (and its blocks) was constructed but before the first solve
+        ops = [('W', rng.below(n), rng.choice(PINW))] + ops
+    if hist and (weights or rng.chance(1, 2)):
         for _ in range(rng.range(1, 7)):
             t = rng.below(10)
             if t < 3:
@@ -457,7 +489,10 @@ def gen_instance(rng, iid, nmax, kind='I', hist=True):
                 c = gen_con(rng, n, pos, mode, eqp)
                 ops.append(('A',) + c)
             elif t < 7:
-                ops.append(('D', rng.below(n), rng.choice(DES)))
+                if weights and rng.chance(1, 2):
+                    ops.append(('W', rng.below(n), rng.choice(PINW)))
+                else:
+                    ops.append(('D', rng.below(n), rng.choice(DES)))
             else:
                 ops.append(('S',) if rng.chance(2, 3) else ('F',))
         if ops[-1][0] not in 'SF':
@@ -466,7 +501,8 @@ def gen_instance(rng, iid, nmax, kind='I', hist=True):
         if ops[-1][0] not in 'SF':
             ops[-1] = ('S',)
     return {'id': iid, 'kind': 'I', 'vs': vs, 'cs': cs, 'ops': ops,
-            'tag': family + ('+eq' if eqp else '') + ('+scaled' if scaled else '') + ('+hist' if len(ops) > 1 else '')}
+            'tag': family + ('+eq' if eqp else '') + ('+scaled' if scaled else '') + ('+hist' if len(ops) > 1 else '') +
+                   ('+wt' if any(o[0] == 'W' for o in ops) else '')}
 
 
 def gen_exhaustive(level):
@@ -493,6 +529,24 @@ def gen_exhaustive(level):
                 iid += 1
                 out.append({'id': iid, 'kind': 'I', 'vs': [(d, Fr(1), Fr(1)) for d in p], 'cs': list(seq),
                             'ops': [('S',)], 'tag': 'exh3'})
+    return out
+
+
+def gen_exhaustive_static(level):
+    """the static Solver on the same finite families (all multigraphs on 2 variables with <= 3 constraints and gaps in
+    {-1,0,1,2}, i.e. every two-cycle of total gap -2..4 with every pair of desired positions; on 3 variables every
+    sequence of <= 2 (quick) / 3 (thorough) constraints): feasible and infeasible, acyclic and cyclic"""
+    out = []
+    for e in gen_exhaustive(level):
+        t = dict(e)
+        t['kind'] = 'S'
+        t['tag'] = 'static-' + e['tag']
+        out.append(t)
+        if e['id'] % 3 == 0:
+            t2 = dict(t)
+            t2['ops'] = [('F',)]
+            t2['id'] = e['id'] + 10000000
+            out.append(t2)
     return out
 
 
@@ -525,17 +579,17 @@ def shrink(ins, fails, budget=400):
                 continue
             t = copy.deepcopy(ins)
             del t['ops'][k]
-            if t['ops'] and t['ops'][0][0] in 'SFAD' and f(t):
+            if t['ops'] and t['ops'][0][0] in 'SFADW' and f(t):
                 ins, changed = t, True
         for v in range(len(ins['vs']) - 1, -1, -1):
             used = any(c[0] == v or c[1] == v for c in ins['cs']) or \
-                any((o[0] == 'A' and (o[1] == v or o[2] == v)) or (o[0] == 'D' and o[1] == v) for o in ins['ops'])
+                any((o[0] == 'A' and (o[1] == v or o[2] == v)) or (o[0] in 'DW' and o[1] == v) for o in ins['ops'])
             if not used and len(ins['vs']) > 1:
                 t = copy.deepcopy(ins)
                 del t['vs'][v]
                 g = lambda i: i - 1 if i > v else i
                 t['cs'] = [(g(c[0]), g(c[1]), c[2], c[3]) for c in t['cs']]
-                t['ops'] = [('A', g(o[1]), g(o[2]), o[3], o[4]) if o[0] == 'A' else (('D', g(o[1]), o[2]) if o[0] == 'D' else o)
+                t['ops'] = [('A', g(o[1]), g(o[2]), o[3], o[4]) if o[0] == 'A' else ((o[0], g(o[1]), o[2]) if o[0] in 'DW' else o)
                             for o in t['ops']]
                 if f(t):
                     ins, changed = t, True
@@ -617,7 +671,7 @@ def parse_cpp_instances(txt):
             elif t[1] == 'A':
                 cur['ops'].append(('A', int(t[2]), int(t[3]), Fr(t[4]), t[5] == '1'))
             else:
-                cur['ops'].append(('D', int(t[2]), Fr(t[3])))
+                cur['ops'].append((t[1], int(t[2]), Fr(t[3])))
     return out
 
 
@@ -645,7 +699,8 @@ def unscaled_equivalent(ins):
     import copy
     t = copy.deepcopy(ins)
     t['vs'] = [(Fr(d) * Fr(s), Fr(w) / (Fr(s) * Fr(s)), Fr(1)) for (d, w, s) in ins['vs']]
-    t['ops'] = [('D', o[1], Fr(o[2]) * Fr(ins['vs'][o[1]][2])) if o[0] == 'D' else o for o in ins['ops']]
+    t['ops'] = [('D', o[1], Fr(o[2]) * Fr(ins['vs'][o[1]][2])) if o[0] == 'D' else
+                (('W', o[1], Fr(o[2]) / (Fr(ins['vs'][o[1]][2]) ** 2)) if o[0] == 'W' else o) for o in ins['ops']]
     return t
 
 
@@ -660,6 +715,51 @@ def classify_static_scale(ins, k, impl, reltol=Fr(1, 100000)):
         return False
     v, st = eval_c02(t, real.get(t['id'], []), drv.get(t['id']), impl, reltol)
     return not v and st['certified'] > 0
+
+
+def classify_static_feasible_cycle(ins, r):
+    """fingerprint predicate `static_solver_throws_on_feasible_cycle` for a static Solver::satisfy()/solve() that threw
+    UnsatisfiedConstraint on a FEASIBLE inequality-only system (feasibility is decided by the caller with the verified
+    detector): the thrown constraint lies in a weakly connected component of the constraint graph that contains a
+    directed cycle (necessarily of non-positive total gap, the system being feasible).  Blocks::totalOrder() starts its
+    DFS only from variables without in-constraints and its push_front order is a topological order only for a DAG, so
+    mergeLeft() cannot establish its invariant ("all in-constraints of the processed block are satisfied") in such a
+    component.  A throw inside an acyclic component is never this finding.  Returns None or a detail string:
+    'through' (the thrown constraint is itself on a directed cycle), 'downstream' (its left variable is reachable from
+    a cycle), 'component' (only weakly connected to one - seen after refine() split blocks in solve())."""
+    if ins['kind'] != 'S' or r.get('thrown') is None or r['thrown'] < 0:
+        return None
+    vs, cs = cons_at(ins, r['op'])
+    n, j = len(vs), r['thrown']
+    if j >= len(cs) or any(c[3] for c in cs):
+        return None
+    adj = [[] for _ in range(n)]
+    und = [[] for _ in range(n)]
+    for (l, rr, g, e) in cs:
+        adj[l].append(rr)
+        und[l].append(rr)
+        und[rr].append(l)
+
+    def reach(a, start):
+        seen, st = set(), [start]
+        while st:
+            v = st.pop()
+            for w in a[v]:
+                if w not in seen:
+                    seen.add(w)
+                    st.append(w)
+        return seen
+    R = [reach(adj, v) for v in range(n)]
+    oncyc = [v in R[v] for v in range(n)]
+    l, rr = cs[j][0], cs[j][1]
+    if l == rr or l in R[rr]:
+        return 'through'
+    if oncyc[l] or any(oncyc[v] and l in R[v] for v in range(n)):
+        return 'downstream'
+    comp = reach(und, l) | {l}
+    if any(oncyc[v] for v in comp):
+        return 'component'
+    return None
 
 
 # ------------------------------------------------------------------------------------------ gradient-projection style
